@@ -28,6 +28,18 @@ def main(argv=None):
         case = rep["case"]
         ctx = Ctx(pid, args.tier, seed, mod.LEVEL)
         try:
+            if isinstance(case, dict) and case.get("history_probe"):
+                from vf.core.ctx import _sequence_eval
+                import importlib as _il
+
+                fn = getattr(_il.import_module(case["module"]), case["function"])
+                a = _sequence_eval(fn, case["sequence"])
+                b = _sequence_eval(fn, case["sequence"][::-1])[::-1]
+                bad = [(c, x, y) for c, x, y in zip(case["sequence"], a, b) if x[:2] != y[:2]]
+                for c, x, y in bad:
+                    print(f"  ORDER-DEPENDENT case {json.dumps(c)[:300]}: forward {x[:2]} vs reverse {y[:2]}")
+                print(f"replay {pid}: call-order probe, {len(bad)} order-dependent case(s)")
+                return 1 if bad else 0
             res = mod.replay(case) if hasattr(mod, "replay") else mod.evaluate(case)
             print(f"replay {pid}: outcome={res.outcome}")
             for f in res.fails:
